@@ -731,6 +731,186 @@ pub fn check_blocking(case: &BlockingCase, st: &mut Stats) -> Result<(), String>
     verdict
 }
 
+// ---------------------------------------------------------------------------------------------
+// sync_root: the synchronous part of the root closure of an async scope spawns tasks and then panics.
+// A correct scope either never gives control back (the documented must-complete guard aborts the process) or gives it
+// back only after every spawned task has finished; it must never return while a task is still running. Since the
+// outcome on a correct implementation is a process abort, every case runs in a child process.
+
+#[derive(Debug, Clone, Serialize, Deserialize, Hash)]
+pub struct SyncRootCase {
+    /// (blocking, background, linger ms after the cancellation)
+    children: Vec<(bool, bool, u8)>,
+    /// 0 = the closure panics after its spawns, 1 = before them (control), 2 = the root *future* panics at its first poll (control)
+    mode: u8,
+    /// The scope runs inside a task of an outer scope.
+    nested: bool,
+    workers: u8,
+}
+
+pub fn gen_sync_root(ch: &mut Choices) -> SyncRootCase {
+    let k = 1 + ch.below(4);
+    SyncRootCase {
+        children: (0..k).map(|_| (ch.chance(1, 3), ch.bool(), ch.pick(&[0u8, 0, 5, 30]))).collect(),
+        mode: ch.weighted(&[(6, 0u8), (1, 1), (1, 2)]),
+        nested: ch.chance(1, 3),
+        workers: 1 + ch.below(3) as u8,
+    }
+}
+
+/// Child process: runs the program; exit 0 = control came back with every task finished, 17 = it came back early,
+/// death by SIGABRT = it never came back.
+pub fn sync_root_child(spec: &str) -> ! {
+    use std::sync::atomic::{AtomicU32, Ordering};
+    use zksync_concurrency::{ctx, scope};
+    let case: SyncRootCase = serde_json::from_str(spec).expect("child spec");
+    std::panic::set_hook(Box::new(|_| {}));
+    common::crashdump::no_core_dumps();
+    let rt = tokio::runtime::Builder::new_multi_thread().worker_threads(case.workers.clamp(1, 8) as usize).enable_all().build().unwrap();
+    let n = case.children.len() as u32;
+    let started = Arc::new(AtomicU32::new(0));
+    let done = Arc::new(AtomicU32::new(0));
+    let (started2, done2, case2) = (started.clone(), done.clone(), case.clone());
+    async fn scripted(ctx: &ctx::Ctx, started: Arc<AtomicU32>, done: Arc<AtomicU32>, case: SyncRootCase) -> Result<(), u32> {
+        let (started, done, case) = (&started, &done, &case);
+        let res: Result<(), u32> = scope::run!(ctx, |ctx, s| {
+            if case.mode == 1 {
+                panic!("scripted panic of the root closure before its spawns");
+            }
+            for (blocking, bg, linger) in case.children.iter().copied() {
+                let (started, done) = (started.clone(), done.clone());
+                if blocking {
+                    let f = move || {
+                        started.fetch_add(1, Ordering::SeqCst);
+                        ctx.canceled().block();
+                        std::thread::sleep(std::time::Duration::from_millis(linger as u64));
+                        done.fetch_add(1, Ordering::SeqCst);
+                        Ok(())
+                    };
+                    if bg {
+                        s.spawn_bg_blocking(f);
+                    } else {
+                        s.spawn_blocking(f);
+                    }
+                } else {
+                    let f = async move {
+                        started.fetch_add(1, Ordering::SeqCst);
+                        ctx.canceled().await;
+                        tokio::time::sleep(std::time::Duration::from_millis(linger as u64)).await;
+                        done.fetch_add(1, Ordering::SeqCst);
+                        Ok(())
+                    };
+                    if bg {
+                        s.spawn_bg(f);
+                    } else {
+                        s.spawn(f);
+                    }
+                }
+            }
+            if case.mode == 0 {
+                // let the tasks start: they are really running when the closure panics
+                let t0 = std::time::Instant::now();
+                while started.load(Ordering::SeqCst) < case.children.len() as u32 && t0.elapsed() < std::time::Duration::from_millis(200) {
+                    std::thread::yield_now();
+                }
+                panic!("scripted panic of the root closure after its spawns");
+            }
+            async move {
+                if case.mode == 2 {
+                    panic!("scripted panic of the root future");
+                }
+                Ok(())
+            }
+        })
+        .await;
+        res
+    }
+    let nested = case.nested;
+    let mode = case.mode;
+    let came_back: bool = rt.block_on(async move {
+        let h = tokio::spawn(async move {
+            let root = ctx::root();
+            if !nested {
+                return scripted(&root, started2, done2, case2).await;
+            }
+            scope::run!(&root, |ctx, s| async move {
+                let inner = s.spawn(async move { scripted(ctx, started2, done2, case2).await });
+                inner.join(ctx).await.map_err(|_| 9u32)?;
+                Ok(())
+            })
+            .await
+        });
+        // the scope gave control back to its caller (by unwinding into the tokio task) if the join handle resolves
+        let _ = h.await;
+        true
+    });
+    let d = done.load(Ordering::SeqCst);
+    let spawned = if mode == 1 { 0 } else { n };
+    let s = started.load(Ordering::SeqCst);
+    if came_back && d < spawned.min(s.max(if mode == 0 { spawned } else { 0 })) {
+        println!("RETURNED-EARLY done={d} started={s} spawned={spawned}");
+        std::process::exit(17);
+    }
+    std::process::exit(0);
+}
+
+pub fn check_sync_root(case: &SyncRootCase, st: &mut Stats) -> Result<(), String> {
+    let exe = std::env::current_exe().map_err(|e| format!("INFRA: current_exe: {e}"))?;
+    let spec = serde_json::to_string(case).unwrap();
+    let mut child = std::process::Command::new(exe)
+        .env("VERIF_C17_CHILD", &spec)
+        .stdin(std::process::Stdio::null())
+        .stdout(std::process::Stdio::piped())
+        .stderr(std::process::Stdio::null())
+        .spawn()
+        .map_err(|e| format!("INFRA: cannot start the child process: {e}"))?;
+    let t0 = std::time::Instant::now();
+    let status = loop {
+        match child.try_wait() {
+            Ok(Some(s)) => break s,
+            Ok(None) if t0.elapsed() > std::time::Duration::from_secs(60) => {
+                let _ = child.kill();
+                let _ = child.wait();
+                return Err("INFRA: the child process did not end within 60 s".into());
+            }
+            Ok(None) => std::thread::sleep(std::time::Duration::from_millis(2)),
+            Err(e) => return Err(format!("INFRA: wait: {e}")),
+        }
+    };
+    let mut out = String::new();
+    if let Some(mut o) = child.stdout.take() {
+        use std::io::Read as _;
+        let _ = o.read_to_string(&mut out);
+    }
+    use std::os::unix::process::ExitStatusExt as _;
+    st.class(match case.mode {
+        0 => "closure_panics_after_its_spawns",
+        1 => "closure_panics_before_its_spawns",
+        _ => "root_future_panics",
+    });
+    match (status.code(), status.signal()) {
+        (Some(0), _) => {
+            st.class("control_came_back_with_every_task_finished");
+        }
+        (None, Some(6)) => {
+            st.class("process_aborted(never_returned)");
+        }
+        (Some(17), _) => {
+            return Err(format!("the scope gave control back to its caller while tasks spawned in it were still running: {}", out.trim()));
+        }
+        (None, Some(sig @ (11 | 7 | 4))) => {
+            // the program is safe Rust: a memory fault means that tasks outlived the environment the scope had borrowed for them
+            return Err(format!("the child process died with signal {sig} (memory fault): tasks of the scope were still running after the scope had let go of its environment"));
+        }
+        (c, sig) => return Err(format!("INFRA: unexpected end of the child process: code {c:?} signal {sig:?}")),
+    }
+    if case.mode == 0 {
+        st.nontrivial(common::fingerprint(case));
+    }
+    st.sample(|| serde_json::to_value(case).unwrap());
+    Ok(())
+}
+
 pub fn main(env: &Env) -> i32 {
     env.arm_emergency();
     common::crashdump::arm(&env.property);
@@ -738,6 +918,9 @@ pub fn main(env: &Env) -> i32 {
         let (part, case) = Env::read_replay(&path);
         if part == "threads" {
             return env.finish_replay(&path, common::replay_case::<ThreadsCase>(case, check_threads));
+        }
+        if part == "sync_root" {
+            return env.finish_replay(&path, common::replay_case::<SyncRootCase>(case, check_sync_root));
         }
         if part == "blocking_scopes" {
             return env.finish_replay(&path, common::replay_case::<BlockingCase>(case, check_blocking));
@@ -783,6 +966,20 @@ pub fn main(env: &Env) -> i32 {
             PartOpts { cases: env.tier.pick(160, 4_000), max_shrink_iters: 40, samples: 2 },
             || Choices::strategy(40).prop_map(|mut ch| gen_blocking(&mut ch)),
             check_blocking,
+        ));
+    }
+    parts.extend(common::run_regress::<SyncRootCase>(env, "sync_root", check_sync_root));
+    {
+        let mut seq = env.clone_for_part();
+        seq.shards = 4;
+        parts.push(run_proptest(
+            &seq,
+            "sync_root",
+            "an async scope (directly in a tokio task, or inside a task of an outer scope) whose root CLOSURE - the synchronous part that runs before the root future exists - spawns 1-4 tasks (async / blocking, main / background, each waits for the cancellation of the scope and lingers 0-30 ms) and then panics; controls: the closure panics before its spawns, the root future panics at its first poll. \
+             Every case runs in a child process, because the documented reaction is the must-complete guard (process abort). Oracle: the scope never gives control back to its caller while a task spawned in it is still running - the child either dies by SIGABRT (never returned) or reports that every task had finished when control came back. Non-trivial = the closure panics after its spawns",
+            PartOpts { cases: env.tier.pick(160, 3_000), max_shrink_iters: 30, samples: 2 },
+            || Choices::strategy(30).prop_map(|mut ch| gen_sync_root(&mut ch)),
+            check_sync_root,
         ));
     }
     env.finish(
